@@ -28,7 +28,7 @@ check("C16", "fault_enumeration",
       "Exhaustive fault enumeration on the real reader/builder/checker: for each of the six non-declaring label kinds the "
       "label is replaced by every single-token fault of its base texts (delete, truncate, open comment, replace by / insert "
       "each of 38 tokens at every token position) and by every token string of length <= 2 (quick) / 3 (thorough) over the "
-      "same alphabet, inside a model that shadows one name globally, template-locally and in select binders and uses it again "
+      "same alphabet, (location labels: the first location carries an invariant and a rate, base texts with quantifiers) inside a model that shadows one name globally, template-locally and in select binders and uses it again "
       "in later edges, the next template and the system section; the resulting document with that one label masked must equal "
       "the fault-free document and every diagnostic must point at the faulted label. Declarations: 343 lists of three "
       "declarations x fault in the 2nd/3rd x every truncation and token deletion, globally and template-locally: earlier "
@@ -43,7 +43,10 @@ check("C17", "exploration",
       "literal/variable/call/expression under < <= == >= > in either operand order, alone and at each of three conjunct "
       "positions of guards and invariants; floating-point assignments at each update-list position; clock initialisers; "
       "constant clock rates 2/3/2.5/0.5 at each conjunct position and reversed; dynamic templates; non-broadcast channels "
-      "(global, urgent, arrays, typedef, template-local, used); channel and process priorities - each instantiated "
+      "(global, urgent, arrays, typedef, template-local, used); the comparisons also under ||, imply, forall, nested "
+      "conjunctions, inline-if bounds and on clock-array elements; assignments hidden in global / template-local functions "
+      "and their statements; clock-array initialisers; rates under forall; pairs of features for different methods in two "
+      "templates in both orders; channel and process priorities - each instantiated "
       "(explicitly and directly), uninstantiated, and in two declaration orders. Oracle: a method is reported supported only "
       "if the generator's feature flag permits it; unused templates and declaration order do not change the verdict.",
       "Only the statement's 'only if' direction and invariance clauses are demanded; variable-valued rates are not claimed "
@@ -169,9 +172,11 @@ check("C10", "exploration",
 check("C11", "exploration",
       "Full matrix of 21 side-effect-free contexts (guard, invariant, sync index, probability weight, select bound, global/"
       "local initialiser, array size, range bound, instantiation argument, forall/exists/sum body, assert, channel priority "
-      "index, four query forms) x 60 write forms (all assignment operators bare and inside functions, ++/-- pre/post, array "
+      "index, four query forms) x 112 write forms (all assignment operators bare and inside functions, ++/-- pre/post, array "
       "element, struct field, inline-if/comma lvalues, writer calls and call chains of depth 1-3, the write placed in 13 "
-      "statement forms, reference parameters); each cell is paired with a read-only twin that must be accepted and a "
+      "statement forms, reference parameters; 13 target shapes - conditional lvalues mixing locals, parameters and globals, "
+      "indexed and selected targets - x 4 operators inside functions), the core forms at 10 positions inside the context's "
+      "expression; each cell is paired with a read-only twin that must be accepted and a "
       "local-only-writer control, so that the real type checker's verdicts are decided cell by cell.",
       "Twins in compile-time contexts read constants only. Progress measures are not in the statement's list and are not "
       "enumerated. Small scope: chains <= 3, one representative per statement form.",
@@ -183,7 +188,9 @@ check("C12", "exploration",
       "and templates, typedef'd const, select/iteration/forall/exists/sum binders) x type shapes (int, bounded typedef, array "
       "element with constant/variable index, struct field, array-of-struct field, matrix element) x 16 write forms "
       "(assignment operators, ++/--, inline-if lvalues, chained assignment, non-const reference arguments direct and chained): "
-      "1524 documents decided by the real type checker; const cell must be rejected, its mutable twin accepted.",
+      "1524 documents decided by the real type checker; const cell must be rejected, its mutable twin accepted. Plus constness "
+      "buried in 11 composite types (records of arrays of a typedef'd const, arrays of records, nested records): every scalar "
+      "access path x 8 write forms x {update, function body, reference parameter of the composite type}.",
       "Quantifier binders have no accepted twin. Small scope: listed shapes/forms.",
       "bounded-exhaustive matrix enumeration on the real type checker with a twin (differential) oracle",
       "DESIGN.md §3/C12")
@@ -202,7 +209,7 @@ check("C13", "exploration",
 
 check("C14", "exploration",
       "Full matrix: all ordered operand pairs from a typed pool x 11 commutative operators (a op b vs b op a), all ordered "
-      "pairs as inline-if branches (c?a:b vs !c?b:a), and all ordered pairs of 16 typedef'd types as (argument, reference "
+      "pairs as inline-if branches (c?a:b vs !c?b:a), and all ordered pairs of 22 typedef'd types incl. aliases of aliases as (argument, reference "
       "parameter) for functions and templates, each executed on the real type checker; oracle = same verdict and same base "
       "kind under the swap, and acceptance of a reference argument iff the types are equivalent.",
       "Trusts the equivalence table of the 16 types in checks/c14.py; kinds are compared after stripping const/range/label "
@@ -213,7 +220,7 @@ check("C14", "exploration",
 check("C15", "model_checking",
       "Explicit-state search over call histories executed on the real library. State = the process-global lexer/parser/tracker "
       "state (parser statics read through a wrapper TU, flex start condition and buffer stack, UTAP::tracker, errno); "
-      "transition = one more call of a public entry point, executed in a process forked from that state. 24 events (XML by "
+      "transition = one more call of a public entry point, executed in a process forked from that state. 27 events (XML by "
       "buffer/fd, XTA by buffer/FILE*, queries by buffer/FILE*, bare blocks; accepted, diagnosed, throwing XMLReaderError / "
       "XMLDocError / runtime_error / TypeException from inside the grammar, unterminated comments, 3.x syntax, a client builder "
       "aborting inside a comment / an array declarator / a label). All histories of length <= 2 (quick) / 3 (thorough) from "
@@ -235,7 +242,8 @@ check("C09", "exploration",
       "singly: layout (blank, tab, newline, CR LF, block / line / EXPECT comment, backslash continuation at every token boundary "
       "of every text block; a redundant pair of parentheses around every sub-expression), consistent renaming of every user "
       "identifier (33 of every identifier class) to a fresh name and to each soft keyword A U W R E M sup inf bounds "
-      "simulation, and keyword-operator aliases in either direction at every occurrence. Diagnostic messages (renaming mapped "
+      "simulation, every scoped declaration (binders, parameters, locals) renamed to every outer name that is not used in its "
+      "scope (shadowing vs. fresh name), and keyword-operator aliases in either direction at every occurrence. Diagnostic messages (renaming mapped "
       "back, positions ignored), supported methods, document dump and parsed queries must equal the base model's. Plus a "
       "redundant pair of parentheses around every node of every depth-2 expression tree of the C02 enumeration.",
       "Trusts lib/exprgen.py to render the same tree with extra parentheses / alias spellings. sup, inf, bounds, simulation are "
